@@ -163,6 +163,22 @@ class SeriesLemma(Harness):
         env["s4"], env["c4"] = mp.sin(xv / 4), mp.cos(xv / 4)
         env["at"] = mp.atan(xv)
 
+    def refine(self, ctx):
+        """when a counterexample of the formal identity does not replay (the formal sin/cos were chosen freely),
+        tie them to x by their enclosures and ask again"""
+        aux = ctx.aux
+        x = aux["x"]
+        fs = []
+        if "s" in aux:
+            fs += [between(aux["s"], sin_partial(x, NTERMS), sin_partial(x, NTERMS + 1)),
+                   between(aux["c"], cos_partial(x, NTERMS), cos_partial(x, NTERMS + 1))]
+        if "s4" in aux:
+            fs += [between(aux["s4"], sin_partial(x / 4, NTERMS), sin_partial(x / 4, NTERMS + 1)),
+                   between(aux["c4"], cos_partial(x / 4, NTERMS), cos_partial(x / 4, NTERMS + 1))]
+        if "atan_x" in aux:
+            fs += [between(aux["atan_x"], atan_partial(x, NTERMS), atan_partial(x, NTERMS + 1))]
+        return fs
+
     def claims(self, outs, ins, aux):
         """both claim families are guarded by the region of the *specified* switch (|arg| = 1e-3), so they do not
         depend on where the code's own cells happen to lie: a moved or one-sided threshold is caught as a
